@@ -112,7 +112,13 @@ Record oprec := mkOp {
   o_fabs : list N;          (* fabric indexes in the table *)
   o_res : list (N * N);     (* records (fabric, peer) of the cache in memory *)
   o_kres : list (N * N);    (* records of the cache in the store *)
-  o_inc : list (N * N)      (* fabric index -> which commissioning it stands for (numbered by the harness) *)
+  o_inc : list (N * N);     (* fabric index -> which commissioning it stands for (numbered by the harness) *)
+  (* the subscription table and its slots in the store *)
+  o_subscribed : option (N * N); (* a subscription (fabric, tag) was established by this operation *)
+  o_pass : bool;            (* the operation wrote or removed subscription slots: a persist pass ran (to its end) *)
+  o_reset : bool;           (* a factory reset (removes the slots, leaves the table in memory: by design) *)
+  o_subs : list (N * N);    (* the table in memory *)
+  o_ksubs : list (N * (N * N)) (* the slots in the store: (slot, subscription) *)
 }.
 
 Record cutrec := mkCut {
@@ -120,7 +126,8 @@ Record cutrec := mkCut {
   c_boot : bool;            (* start-up succeeded *)
   c_cells : cells;
   c_fabs : list N;
-  c_kres : list (N * N)     (* the stored cache once start-up is through *)
+  c_kres : list (N * N);    (* the stored cache once start-up is through *)
+  c_ksubs : list (N * (N * N)) (* the stored subscription slots once start-up is through *)
 }.
 
 Definition find_cut (cuts : list cutrec) (n : N) : option cutrec :=
@@ -133,7 +140,9 @@ Definition cell_ids (a b : cells) : list N := map fst a ++ map fst b.
 Definition K_CACHE : N := 267.
 Definition K_SUBS_CELL : N := 2048.
 Definition K_STORED_CACHE_CELL : N := 9267.   (* the cache as it is in the store: start-up may rewrite it *)
-Definition best_effort_cell (k : N) : bool := (k =? K_CACHE) || (k =? K_SUBS_CELL) || (k =? K_STORED_CACHE_CELL).
+Definition K_STORED_SUBS_CELL : N := 9268.    (* the subscription slots as they are in the store *)
+Definition best_effort_cell (k : N) : bool :=
+  (k =? K_CACHE) || (k =? K_SUBS_CELL) || (k =? K_STORED_CACHE_CELL) || (k =? K_STORED_SUBS_CELL).
 Definition K_NETS_CELL : N := 258.
 
 Definition staged_cell (fsx : option N) (k : N) : bool :=
@@ -243,34 +252,102 @@ Definition peq (a b : N * N) : bool := (fst a =? fst b) && (snd a =? snd b).
 Definition bound (b : list ((N * N) * N)) (k : N * N) : option N :=
   match find (fun x => peq (fst x) k) b with Some x => Some (snd x) | None => None end.
 
-Fixpoint check_rebound (i : N) (b : list ((N * N) * N)) (ops : list oprec) : list (N * N) :=
+Section Rebound.
+  Variable code : N.
+  Variable live stored : oprec -> list (N * N).
+  Variable established : oprec -> option (N * N).
+  Fixpoint check_rebound_gen (i : N) (b : list ((N * N) * N)) (ops : list oprec) : list (N * N) :=
+    match ops with
+    | [] => []
+    | o :: t =>
+        let anywhere := live o ++ stored o in
+        let b1 := filter (fun x => existsb (peq (fst x)) anywhere) b in
+        let b2 := match established o with
+                  | Some k => filter (fun x => negb (peq (fst x) k)) b1
+                  | None => b1
+                  end in
+        let moved (k : N * N) : bool :=
+          match bound b2 k, aget (o_inc o) (fst k) with
+          | Some n, Some m => negb (n =? m)
+          | _, _ => false
+          end in
+        let bad := existsb moved (live o) in
+        (* reported once: the record is followed under its new holder from here on *)
+        let b3 := filter (fun x => negb (existsb (peq (fst x)) (live o) && moved (fst x))) b2 in
+        let b4 := b3 ++ flat_map (fun k => match bound b3 k, aget (o_inc o) (fst k) with
+                                           | None, Some m => [(k, m)]
+                                           | _, _ => []
+                                           end) anywhere in
+        (if bad then [(code, i)] else []) ++ check_rebound_gen (i + 1) b4 t
+    end.
+End Rebound.
+
+Definition check_rebound : N -> list ((N * N) * N) -> list oprec -> list (N * N) :=
+  check_rebound_gen V_REBOUND o_res o_kres o_session.
+
+(** The subscription table is best effort in the same sense: a subscription may be lost by a power
+    loss, but what the store holds is what a restart RESUMES.
+
+    (c) A persist pass that ran to its end leaves the slots an exact mirror of the table in memory
+        (slot k = k-th subscription, nothing behind them); so does every operation that changed the
+        table (every such operation ends with a pass) - a factory reset aside, which clears the
+        slots only.
+    (d) Once start-up is through, the slots a restart would resume (slot 0 up to the first empty
+        one) hold no subscription of a fabric that is not in the table.
+    (e) A subscription (fabric, tag) belongs to the commissioning it was made under, as (b). *)
+Definition V_SUBS_MIRROR : N := 10.      (* operation index *)
+Definition V_SUBS_STALE : N := 11.       (* cut position *)
+Definition V_SUBS_STALE_LIVE : N := 12.  (* operation index *)
+Definition V_SUBS_REBOUND : N := 13.
+
+Fixpoint mirror (k : N) (tbl : list (N * N)) (slots : list (N * (N * N))) : bool :=
+  match tbl, slots with
+  | [], [] => true
+  | x :: t, (k', y) :: t' => (k =? k') && peq x y && mirror (k + 1) t t'
+  | _, _ => false
+  end.
+
+Fixpoint same_list (a b : list (N * N)) : bool :=
+  match a, b with
+  | [], [] => true
+  | x :: t, y :: t' => peq x y && same_list t t'
+  | _, _ => false
+  end.
+
+Fixpoint check_subs_mirror (i : N) (prev : list (N * N)) (ops : list oprec) : list (N * N) :=
   match ops with
   | [] => []
   | o :: t =>
-      let anywhere := o_res o ++ o_kres o in
-      let b1 := filter (fun x => existsb (peq (fst x)) anywhere) b in
-      let b2 := match o_session o with
-                | Some k => filter (fun x => negb (peq (fst x) k)) b1
-                | None => b1
-                end in
-      let moved (k : N * N) : bool :=
-        match bound b2 k, aget (o_inc o) (fst k) with
-        | Some n, Some m => negb (n =? m)
-        | _, _ => false
-        end in
-      let bad := existsb moved (o_res o) in
-      (* reported once: the record is followed under its new holder from here on *)
-      let b3 := filter (fun x => negb (existsb (peq (fst x)) (o_res o) && moved (fst x))) b2 in
-      let b4 := b3 ++ flat_map (fun k => match bound b3 k, aget (o_inc o) (fst k) with
-                                         | None, Some m => [(k, m)]
-                                         | _, _ => []
-                                         end) anywhere in
-      (if bad then [(V_REBOUND, i)] else []) ++ check_rebound (i + 1) b4 t
+      (if negb (o_restart o) && negb (o_reset o) && (o_pass o || negb (same_list prev (o_subs o)))
+          && negb (mirror 0 (o_subs o) (o_ksubs o))
+       then [(V_SUBS_MIRROR, i)] else [])
+      ++ check_subs_mirror (i + 1) (o_subs o) t
   end.
+
+Fixpoint resumable (k : N) (slots : list (N * (N * N))) : list (N * N) :=
+  match slots with
+  | (k', y) :: t => if k =? k' then y :: resumable (k + 1) t else []
+  | [] => []
+  end.
+
+Definition check_subs_stale_cuts (cuts : list cutrec) : list (N * N) :=
+  flat_map (fun c => if c_boot c && stale (c_fabs c) (resumable 0 (c_ksubs c)) then [(V_SUBS_STALE, c_n c)] else []) cuts.
+
+Fixpoint check_subs_stale_ops (i : N) (ops : list oprec) : list (N * N) :=
+  match ops with
+  | [] => []
+  | o :: t => (if o_restart o && stale (o_fabs o) (resumable 0 (o_ksubs o)) then [(V_SUBS_STALE_LIVE, i)] else [])
+              ++ check_subs_stale_ops (i + 1) t
+  end.
+
+Definition check_subs_rebound : N -> list ((N * N) * N) -> list oprec -> list (N * N) :=
+  check_rebound_gen V_SUBS_REBOUND o_subs (fun o => map snd (o_ksubs o)) o_subscribed.
 
 Definition monitor (ops : list oprec) (cuts : list cutrec) : list (N * N) :=
   check_boot cuts ++ check_ops 0 ops cuts ++ check_whole ops cuts ++ check_frozen 0 None 0 ops cuts
-  ++ check_stale_cuts cuts ++ check_stale_ops 0 ops ++ check_rebound 0 [] ops.
+  ++ check_stale_cuts cuts ++ check_stale_ops 0 ops ++ check_rebound 0 [] ops
+  ++ check_subs_mirror 0 [] ops ++ check_subs_stale_cuts cuts ++ check_subs_stale_ops 0 ops
+  ++ check_subs_rebound 0 [] ops.
 
 (** a corrupt resumption blob: boot must succeed; a blob that does not parse must be gone and the
     cache empty; one that parses stays and gives at most its records *)
